@@ -5636,6 +5636,9 @@ class Scen:
                    else [self.series])
         for i in indices:
             self.ambset.sup_constr[i] = tuple(args)
+        self.ambset.update = True
+        self.ambset.model.pupdate = True
+        self.ambset.model.dupdate = True
 
     def exptset(self, *args):
         """
@@ -5670,6 +5673,9 @@ class Scen:
         else:
             indices = self.series
         self.ambset.exp_constr_indices.append(list(indices))
+        self.ambset.update = True
+        self.ambset.model.pupdate = True
+        self.ambset.model.dupdate = True
 
 
 class ScenLoc:
